@@ -417,7 +417,14 @@ def check_protocol(fx, R, fa, fr):
         r = st.ret
         want = 'inverse(this.enu2ecef_'
         if not (isinstance(r, sp.Basic) and want in str(r) and 'toECEF(geodeticCoordinates.latitude, geodeticCoordinates.longitude, geodeticCoordinates.altitude)' in str(r)):
-            unknown = unknown or 'result %s is not in the enumerated form enu2ecef_.inverse() * toECEF(point)' % r
+            alt = alternative_path_value(st) if not unanchored else None
+            if alt is not None and alt[0] == 'violated':
+                fact = fact or alt[1]
+            elif alt is not None and alt[0] == 'agrees':
+                unknown = unknown or ('a path [%s] returns a closed form instead of enu2ecef_.inverse() * toECEF(point); it agrees with the frame conversion on %d witness points to 1e-4 m, which is not a proof' % (
+                    ' && '.join(c[0][:50] for c in st.cond), alt[1]))
+            else:
+                unknown = unknown or 'result %s is not in the enumerated form enu2ecef_.inverse() * toECEF(point)' % str(r)[:200]
     # a path may use the stored frame (anchor / transform) only after it has established that the converter is anchored:
     # reset() clears the flag, not the stored anchor, so an un-guarded read sees the frame of before the reset
     for st in ps:
@@ -438,6 +445,81 @@ def check_protocol(fx, R, fa, fr):
             unknown = unknown or 'no path is recognised as the un-anchored one'
     R.form(fact is None and unknown is None, 'E4', 'ENUConverter::toENU(geodetic):auto-anchor', unknown or '', 'un-anchored => setAnchor(point) before converting', fx.rel(fg[0]['loc']), 'E-STATE',
            facts=[(fact is not None, fact)])
+
+
+def alternative_path_value(st):
+    """A path of toENU(geodetic) that returns three closed-form components instead of going through the frame: evaluated on witness anchors (sea level
+    to 9000 m, both hemispheres) and points that satisfy the path condition, against R(anchor)^T (ecef(point) - ecef(anchor)) on GRS80."""
+    import itertools
+    r = st.ret
+    if not (isinstance(r, sp.Basic) and isinstance(r, sp.core.function.AppliedUndef) and len(r.args) == 3 and 'Matrix' in str(r.func)):
+        return None
+    A_, E2_ = sp.Float(6378137, 40), sp.Float('0.00669438002290', 40)
+
+    def ecef(la, lo, h):
+        N = A_ / sp.sqrt(1 - E2_ * sp.sin(la) ** 2)
+        return sp.Matrix([(N + h) * sp.cos(la) * sp.cos(lo), (N + h) * sp.cos(la) * sp.sin(lo), (N * (1 - E2_) + h) * sp.sin(la)])
+    n_ok, worst = 0, None
+    for (la0, h0) in itertools.product((sp.Float('0.8', 40), sp.Float('-0.65', 40)), (sp.Float(10, 40), sp.Float(4000, 40), sp.Float(9000, 40))):
+        lo0 = sp.Float('0.05', 40)
+        Rm = sp.Matrix([[-sp.sin(lo0), -sp.sin(la0) * sp.cos(lo0), sp.cos(la0) * sp.cos(lo0)],
+                        [sp.cos(lo0), -sp.sin(la0) * sp.sin(lo0), sp.cos(la0) * sp.sin(lo0)],
+                        [0, sp.cos(la0), sp.sin(la0)]])
+        for (dla, dlo, dh) in ((5e-6, 5e-6, 0), (0, 8e-6, 5), (3e-4, 1e-4, 0), (1e-2, 1e-2, 3), (-7e-6, 2e-6, -2)):
+            la, lo, h = la0 + sp.Float(dla, 40), lo0 + sp.Float(dlo, 40), h0 + sp.Float(dh, 40)
+            env = {}
+            for e_ in list(r.args) + [c[1] for c in st.cond if isinstance(c[1], sp.Basic)]:
+                for s_ in e_.free_symbols:
+                    n_ = s_.name
+                    if n_ == 'this.isAnchored_':
+                        env[s_] = sp.true
+                    elif n_.startswith('this.wgs84Anchor_.'):
+                        env[s_] = {'latitude': la0, 'longitude': lo0, 'altitude': h0}.get(n_.split('.')[-1])
+                    elif n_.startswith('geodeticCoordinates.'):
+                        env[s_] = {'latitude': la, 'longitude': lo, 'altitude': h}.get(n_.split('.')[-1])
+                    elif n_.endswith('.a'):
+                        env[s_] = A_
+                    elif n_.endswith('.e2'):
+                        env[s_] = E2_
+                    elif n_.endswith('.e'):
+                        env[s_] = sp.sqrt(E2_)
+                    elif n_.endswith('.b'):
+                        env[s_] = A_ * sp.sqrt(1 - E2_)
+            if any(v is None for v in env.values()):
+                return None
+            ok = True
+            for c in st.cond:
+                if not isinstance(c[1], sp.Basic) or 'isAnchored' in c[0]:
+                    continue
+                try:
+                    v = c[1].subs(env)
+                    if v not in (sp.true, sp.false) and hasattr(v, 'lhs'):
+                        v = v.func(sp.N(v.lhs, 30), sp.N(v.rhs, 30))
+                except Exception:
+                    return None
+                if v not in (sp.true, sp.false):
+                    return None
+                if bool(v) != c[2]:
+                    ok = False
+            if not ok:
+                continue
+            try:
+                got = sp.Matrix([sp.N(a_.subs(env), 30) for a_ in r.args])
+            except Exception:
+                return None
+            if not all(g_.is_number for g_ in got):
+                return None
+            exact = Rm.T * (ecef(la, lo, h) - ecef(la0, lo0, h0))
+            err = max(abs(sp.N(got[i] - exact[i], 30)) for i in range(3))
+            n_ok += 1
+            if err > sp.Float('1e-3') and (worst is None or err > worst[0]):
+                worst = (err, la0, h0, dla, dlo, dh)
+    if worst:
+        desc = ' && '.join(('' if c[2] else '!') + c[0][:70] for c in st.cond if 'isAnchored' not in c[0])
+        return ('violated', 'the path [%s] of toENU(geodetic) does not go through the frame: for an anchor at latitude %s rad and %s m and a point (%g, %g) rad / %g m from it, what it returns differs from '
+                'R^T (ecef(point) - ecef(anchor)) by %s m (statement: mutual inverses within 1 mm, distances preserved); the surface radii of curvature ignore the anchor height' % (
+                    desc, sp.N(worst[1], 3), sp.N(worst[2], 5), worst[3], worst[4], worst[5], sp.N(worst[0], 3)))
+    return ('agrees', n_ok) if n_ok else None
 
 
 def check_conversions(fx, R):
